@@ -25,10 +25,11 @@ Ev == Rec[i]
 ScalarsOk(S, a, l, sc) ==
     LET es == LogOf(S, a, l)
         seqs == {e.seq : e \in es}
-    IN /\ Cardinality(es) = sc.count
-       /\ Height(S, a, l) = sc.height
-       /\ (IF es = {} THEN -1 ELSE CHOOSE m \in seqs : \A x \in seqs : m <= x) = sc.low
-       /\ Cardinality(S) = sc.total
+    IN \/ sc.total = -1              \* not observed (several callers in flight; a Snapshot follows)
+       \/ /\ Cardinality(es) = sc.count
+          /\ Height(S, a, l) = sc.height
+          /\ (IF es = {} THEN -1 ELSE CHOOSE m \in seqs : \A x \in seqs : m <= x) = sc.low
+          /\ Cardinality(S) = sc.total
 
 StepReset ==
     /\ Ev.ev = "Reset"
@@ -50,8 +51,9 @@ StepPrune ==
     /\ Ev.ev = "Prune"
     /\ LogPruneStep
     /\ LET ev == Head(pruneQ)
-       IN /\ ev.item.a = Ev.a /\ ev.item.l = Ev.l /\ ev.item.seq = Ev.until
-          /\ PruneActive(ev) = Ev.active               \* did the pipeline hand args to LogPrune
+       IN ev.item.a = Ev.a /\ ev.item.l = Ev.l /\ ev.item.seq = Ev.until
+          \* ("active" - did LogPrune run a DELETE - is logged for the reader only: a DELETE that
+          \*  removes nothing is not observable at property level; the deleted rows are bound below)
     /\ last'.pruned = Ev.pruned                        \* rows LogPrune reported
     /\ ScalarsOk(store', Ev.a, Ev.l, Ev.log)
 
